@@ -1,5 +1,5 @@
 (* C02_Check.v — correspondence checker for C02 (chained conditions). *)
-From Verif Require Export Base Sem Where_Model.
+From Verif Require Export Base Sem Where_Model C02_Args C09_Keys.
 From Verif Require Import Where_Render Where_Spec.
 
 Record case := mk_case {
@@ -11,7 +11,12 @@ Record case := mk_case {
   o_same : list (list Z);            (* Pluck, Scan, Rows, FindInBatches, Updates(map), UpdateColumn *)
   o_one : list (list Z);             (* single-record reads: kind (0 First, 1 Last, 2 Take / Find into one
                                         record) followed by the id returned (nothing = record not found) *)
-  o_errs : Z
+  o_errs : Z;
+  c_args : list (list garg * list nat); (* every map / struct / key unit of the chain: the Go values that
+                                        carried it (C02_Args) and the arities of the conditions its
+                                        members stand for *)
+  c_keyruns : list (bool * list mvalue) (* primary-key cases: the model values that carried the key unit to the
+                                        update / delete finishers (C09_Keys: is it Delete, the values) *)
 }.
 
 Definition tok_eqb (a b : tok) : bool :=
@@ -40,7 +45,19 @@ Definition rows_of_tokens (c : case) (ts : list tok) : option (list Z) :=
          end
   end.
 
+(* BuildCondition's value loop, run on the Go values of every unit: it must build exactly the
+   conditions the unit's members stand for (no argument, entry, field or key lost or invented) *)
+Definition args_agree (l : list (list garg * list nat)) : bool :=
+  forallb (fun p => list_eqb Nat.eqb (bc_args (fst p)) (snd p)) l.
+
+(* the key-condition code of the finisher (C09_Keys: Delete's IN clauses, the Eq-per-key-field and
+   slice scan of the update methods, the column loop of an update value that is the model with the
+   Select / Omit state of every column) must add the key unit for every model value used *)
+Definition keys_agree (l : list (bool * list mvalue)) : bool :=
+  forallb (fun kr => key_cond (fst kr) (snd kr)) l.
+
 Definition model_agrees (c : case) : bool :=
+  args_agree (c_args c) && keys_agree (c_keyruns c) &&
   match model_tokens c, lex (c_atoms c) (o_where c) with
   | Some mt, Some ot =>
     list_eqb tok_eqb mt ot
